@@ -1,6 +1,6 @@
 (* Theorems about service tasks at teardown (C08). *)
 From Coq Require Import List Bool Arith Lia.
-From Asphalt Require Import Conc.Service.
+From Asphalt Require Import Conc.Service Gen.Gen_service.
 Import ListNotations.
 
 (* the two observations the ordering property is about *)
@@ -458,3 +458,12 @@ Qed.
 Theorem cancel_reaches_running_task : forall SV s sid,
   (exists k, ts s sid = TRun k) \/ ts s sid = TWait -> snd (cancel_task SV s sid) = [CancelSeen sid].
 Proof. intros SV s sid [[k H]|H]; unfold cancel_task; rewrite H; reflexivity. Qed.
+
+(* ---------- the shape of the source the model's branches were read from (Gen/Gen_service.v) ---------- *)
+Theorem service_source_shape :
+  svc_owner_is_self = true /\ svc_finalizer_on_self = true /\ svc_finalizer_registered_after_start = true /\
+  svc_started_through_start = true /\ svc_cancel_action_cancels = true /\ svc_callable_called_once = true /\
+  svc_awaits_awaitable = true /\ svc_fallback_cancel_when_action_raises = true /\
+  svc_action_catches_base_exception = true /\ svc_waits_for_task = true /\
+  bg_scope_encloses_context = true /\ bg_finished_in_finally_after_context = true.
+Proof. repeat split. Qed.
